@@ -141,7 +141,14 @@ def gen_cases(ctx):
                 nw = [10, 11, 12, 14, 17, 18, 19, 20, 33, 34, 40][(j // 29) % 11]
             n_items = int(rng.integers(0 if j % 50 == 49 else 1, 9))
             sched = {w: [] for w in range(nw)}
-            order = rng.permutation(n_items).tolist()
+            if nw >= 10:
+                # every worker gets at least one item, so a sketch that the merge tree drops or doubles always shows
+                n_items = nw + int(rng.integers(0, 4))
+                for i in range(nw):
+                    sched[i].append(i)
+                order = list(range(nw, n_items))
+            else:
+                order = rng.permutation(n_items).tolist()
             for i in order:
                 sched[int(rng.integers(0, nw))].append(i)
             yield make_case(rng, n_items, nw, combo, sched, gen=bool(rng.random() < 0.3))
